@@ -44,6 +44,10 @@ theorem step_inv (s s' : St) (l : Label) (h : Inv s) (hs : step s l = some s') :
     split at hs <;> cases hs
     rename_i hc; simp at hc
     constructor <;> simp_all [wPrev, wEarly]
+  case connectCmdRefused =>
+    split at hs <;> cases hs
+    rename_i hc; simp at hc
+    constructor <;> simp_all [wPrev, wEarly]
   case triggerAcquire =>
     split at hs
     · rename_i hc; simp [connectMuFree] at hc
@@ -308,78 +312,202 @@ theorem unsubscribe_exactly_once (ls : List Label) (s : St) (hr : run {} ls = so
       · have := (h.fresh n (by omega)).2.1; omega
     · intro hm; have := (h.live n hm).2.1; omega
 
-/-- `shutdown_final_partial`: when `Node.Shutdown` has completed and the connection was registered
-in the hub when the shutdown took its snapshot, the connection is closed — and stays closed in
-every continuation (it can never become connected again).
-(Hypothesis: the client was in the hub at the snapshot; without it the statement is false, see
-`connect_after_shutdown`.) -/
-theorem shutdown_final_partial (ls1 ls2 : List Label) (s1 s : St)
-    (hr1 : run {} ls1 = some s1) (hs1 : s1.shut = .snapshotTaken true)
-    (hr : run s1 ls2 = some s) (hd : s.shut = .done) :
-    s.status = .closed ∧ ∀ ls3 s3, run s ls3 = some s3 → s3.status = .closed := by
-  have mono : ∀ (ls : List Label) (a b : St), Inv a → run a ls = some b → a.status = .closed → b.status = .closed := by
-    intro ls
-    induction ls with
-    | nil => intro a b _ h hc; simp [run] at h; subst h; exact hc
-    | cons l ls ih =>
-      intro a b hinv h hc
-      simp only [run] at h
-      split at h
-      · rename_i a1 h1
-        apply ih a1 b (step_inv a a1 l hinv h1) h
-        have hincb := hinv.incb
-        cases l <;> simp only [step] at h1 <;> (repeat' split at h1) <;> (try cases h1) <;> simp_all
-      · cases h
-  have hshut : ∀ (ls : List Label) (x y : St), run x ls = some y → x.shut = .done → y.shut = .done := by
-    intro ls
-    induction ls with
-    | nil => intro x y h hx; simp [run] at h; subst h; exact hx
-    | cons l ls ih2 =>
-      intro x y h hx
-      simp only [run] at h
-      split at h
-      · rename_i x1 hx1
-        apply ih2 x1 y h
-        cases l <;> simp only [step] at hx1 <;> (repeat' split at hx1) <;> (try cases hx1) <;> simp_all
-      · cases h
-  have key : ∀ (ls : List Label) (a b : St), Inv a → run a ls = some b → a.shut = .snapshotTaken true →
-      (b.shut = .snapshotTaken true ∨ (b.shut = .done ∧ b.status = .closed)) := by
-    intro ls
-    induction ls with
-    | nil => intro a b _ h hc; simp [run] at h; subst h; exact Or.inl hc
-    | cons l ls ih =>
-      intro a b hinv h hc
-      simp only [run] at h
-      split at h
-      · rename_i a1 h1
-        have hinv1 := step_inv a a1 l hinv h1
-        have h1' : a1.shut = .snapshotTaken true ∨ (a1.shut = .done ∧ a1.status = .closed) := by
-          cases l <;> simp only [step] at h1 <;> (repeat' split at h1) <;> (try cases h1) <;> simp_all
-        rcases h1' with h1' | h1'
-        · exact ih a1 b hinv1 h h1'
-        · exact Or.inr ⟨hshut ls a1 b h h1'.1, mono ls a1 b hinv1 h h1'.2⟩
-      · cases h
-  have hinv1 := run_inv ls1 {} s1 inv_init hr1
-  have hc : s.status = .closed := by
-    rcases key ls2 s1 s hinv1 hr hs1 with h | h
-    · rw [h] at hd; cases hd
-    · exact h.2
-  exact ⟨hc, fun ls3 s3 h3 => mono ls3 s s3 (run_inv ls2 s1 s hinv1 hr) h3 hc⟩
+def passedAdd (s : St) : Prop := s.cpc = .ready ∨ s.cpc = .inCb ∨ s.cpc = .doneRan
 
-/-- counter-witness (findings C08-1…4): the shutdown takes its snapshot while the client is not
-yet in the hub; after `Shutdown` has returned the connect command still goes through and the
-connection becomes connected. -/
-theorem connect_after_shutdown :
-    ∃ s, run {} [.shutdownSnapshot, .shutdownDone, .connectCmdOk, .triggerAcquire, .triggerEnd] = some s ∧
-      s.shut = .done ∧ s.status = .connected := ⟨_, rfl, by decide, by decide⟩
+structure SInv (s : St) : Prop where
+  /-- a client that passed `addClient` and is not closed is registered in the hub -/
+  hub : passedAdd s → s.status ≠ .closed → s.inHub = true
+  /-- once the shutdown took its snapshot, a client that passed `addClient` is closed already or
+  is in the snapshot -/
+  sh : s.shut ≠ .idle → passedAdd s → s.status = .closed ∨ s.shut = .snapshotTaken true
+
+theorem sinv_frame (s s' : St) (h : SInv s) (h1 : s'.cpc = s.cpc) (h2 : s'.status = s.status)
+    (h3 : s'.inHub = s.inHub) (h4 : s'.shut = s.shut) : SInv s' := by
+  constructor
+  · intro hp hc; rw [h3]; exact h.hub (by simpa [passedAdd, h1] using hp) (by rwa [h2] at hc)
+  · intro hsn hp; rw [h2, h4]; exact h.sh (by rwa [h4] at hsn) (by simpa [passedAdd, h1] using hp)
+
+theorem step_sinv (s s' : St) (l : Label) (hI : Inv s) (h : SInv s) (hs : step s l = some s') : SInv s' := by
+  cases l <;> simp only [step] at hs
+  case connectCmdOk =>
+    split at hs <;> cases hs
+    rename_i hc; simp at hc
+    constructor
+    · intro _ _; rfl
+    · intro hsn; simp [hc.2] at hsn
+  case connectCmdRefused =>
+    split at hs <;> cases hs
+    constructor <;> simp [passedAdd]
+  case triggerAcquire =>
+    split at hs
+    · rename_i hc; simp at hc
+      split at hs <;> cases hs
+      · constructor
+        · intro _ hcl; exact h.hub (Or.inl hc.1) hcl
+        · intro hsn _; exact h.sh hsn (Or.inl hc.1)
+      · constructor <;> simp [passedAdd]
+    · cases hs
+  case triggerEnd =>
+    split at hs <;> cases hs
+    rename_i hc
+    have hst := hI.incb hc
+    constructor
+    · intro _ _; exact h.hub (Or.inr (Or.inl hc)) (by simp [hst])
+    · intro hsn _
+      rcases h.sh hsn (Or.inr (Or.inl hc)) with h1 | h1
+      · simp [hst] at h1
+      · exact Or.inr h1
+  case subscribe =>
+    split at hs <;> cases hs
+    exact sinv_frame s _ h rfl rfl rfl rfl
+  case closeTry =>
+    split at hs
+    · split at hs <;> cases hs
+      · exact h
+      · constructor
+        · intro _ hcl; simp at hcl
+        · intro _ _; left; rfl
+    · cases hs
+  case wAcquirePresence =>
+    split at hs
+    · split at hs <;> cases hs
+      exact sinv_frame s _ h rfl rfl rfl rfl
+    · cases hs
+  case wRemove =>
+    split at hs
+    · split at hs <;> cases hs <;> exact sinv_frame s _ h rfl rfl rfl rfl
+    · cases hs
+  case wCb =>
+    split at hs
+    · cases hs; exact sinv_frame s _ h rfl rfl rfl rfl
+    · cases hs
+  case wDisc =>
+    split at hs
+    · split at hs <;> cases hs <;> exact sinv_frame s _ h rfl rfl rfl rfl
+    · cases hs
+  case wDiscEnd =>
+    split at hs
+    · cases hs; exact sinv_frame s _ h rfl rfl rfl rfl
+    · cases hs
+  case unsubRemove n =>
+    split at hs <;> cases hs
+    · exact sinv_frame s _ h rfl rfl rfl rfl
+    · exact h
+  case unsubCb n =>
+    split at hs <;> cases hs
+    exact sinv_frame s _ h rfl rfl rfl rfl
+  case tickAcquire =>
+    split at hs
+    · split at hs <;> cases hs
+      · exact h
+      · exact sinv_frame s _ h rfl rfl rfl rfl
+    · cases hs
+  case tickAliveStart =>
+    split at hs <;> cases hs
+    exact sinv_frame s _ h rfl rfl rfl rfl
+  case tickAliveEnd =>
+    split at hs <;> cases hs
+    exact sinv_frame s _ h rfl rfl rfl rfl
+  case tickRelease =>
+    split at hs <;> cases hs
+    exact sinv_frame s _ h rfl rfl rfl rfl
+  case shutdownSnapshot =>
+    split at hs <;> cases hs
+    constructor
+    · exact h.hub
+    · intro _ hp
+      by_cases hcl : s.status = .closed
+      · exact Or.inl hcl
+      · right; simp [h.hub hp hcl]
+  case shutdownDone =>
+    split at hs
+    · rename_i had hsh
+      split at hs <;> cases hs
+      rename_i hc; simp at hc
+      constructor
+      · exact h.hub
+      · intro _ hp
+        left
+        rcases hc with hc | hc
+        · rcases h.sh (by simp [hsh]) hp with h1 | h1
+          · exact h1
+          · simp [hsh, hc] at h1
+        · exact hc
+    · cases hs
+
+theorem run_sinv : ∀ (ls : List Label) (s s' : St), Inv s → SInv s → run s ls = some s' → SInv s'
+  | [], s, s', _, h, hr => by simp [run] at hr; subst hr; exact h
+  | l :: ls, s, s', hI, h, hr => by
+    simp only [run] at hr
+    split at hr
+    · rename_i s1 h1; exact run_sinv ls s1 s' (step_inv s s1 l hI h1) (step_sinv s s1 l hI h h1) hr
+    · cases hr
+
+theorem sinv_init : SInv {} := by
+  constructor <;> simp [passedAdd]
+
+theorem run_append (l1 l2 : List Label) (a : St) : run a (l1 ++ l2) = (run a l1).bind (fun m => run m l2) := by
+  induction l1 generalizing a with
+  | nil => simp [run]
+  | cons l l1 ih => simp only [List.cons_append, run]; split <;> simp [ih]
+
+theorem shut_done_stable : ∀ (ls : List Label) (x y : St), run x ls = some y → x.shut = .done → y.shut = .done := by
+  intro ls
+  induction ls with
+  | nil => intro x y h hx; simp [run] at h; subst h; exact hx
+  | cons l ls ih =>
+    intro x y h hx
+    simp only [run] at h
+    split at h
+    · rename_i x1 hx1
+      apply ih x1 y h
+      cases l <;> simp only [step] at hx1 <;> (repeat' split at hx1) <;> (try cases hx1) <;> simp_all
+    · cases h
+
+/-- `shutdown_final` (full strength since the fix "no connection becomes connected once node
+shutdown took its snapshot"): in every interleaving, once `Node.Shutdown` has completed the
+connection is not connected — whether it was registered before the snapshot (then it is closed) or
+tries to register afterwards (`addClient` refuses, `triggerConnect` is never reached) — and it
+never becomes connected in any continuation. -/
+theorem shutdown_final (ls : List Label) (s : St) (hr : run {} ls = some s) (hd : s.shut = .done) :
+    s.status ≠ .connected ∧ ∀ ls3 s3, run s ls3 = some s3 → s3.status ≠ .connected := by
+  have key : ∀ (ls : List Label) (s : St), run {} ls = some s → s.shut = .done → s.status ≠ .connected := by
+    intro ls s hr hd hc
+    have hinv := run_inv ls {} s inv_init hr
+    have hsinv := run_sinv ls {} s inv_init sinv_init hr
+    have hcpc := hinv.conn hc
+    rcases hsinv.sh (by simp [hd]) (Or.inr (Or.inr hcpc)) with h | h
+    · simp [hc] at h
+    · simp [hd] at h
+  refine ⟨key ls s hr hd, ?_⟩
+  intro ls3 s3 h3
+  apply key (ls ++ ls3) s3
+  · rw [run_append, hr]; simpa using h3
+  · exact shut_done_stable ls3 s s3 h3 hd
+
+/-- a connection that was registered in the hub when the shutdown took its snapshot is closed
+when `Shutdown` returns -/
+theorem shutdown_closes_registered (ls : List Label) (s : St) (hr : run {} ls = some s) (hd : s.shut = .done)
+    (hreg : s.cpc = .ready ∨ s.cpc = .inCb ∨ s.cpc = .doneRan) : s.status = .closed := by
+  have hsinv := run_sinv ls {} s inv_init sinv_init hr
+  rcases hsinv.sh (by simp [hd]) hreg with h | h
+  · exact h
+  · simp [hd] at h
+
+/-- the former counter-witness (findings C08-1…4, now fixed): after the snapshot `addClient`
+is refused … -/
+example : run {} [.shutdownSnapshot, .shutdownDone, .connectCmdOk] = none := by decide
+/-- … the connect fails, the spawned `close(DisconnectShutdown)` closes the connection and the
+connect callback never runs. -/
+example : ∃ s, run {} [.shutdownSnapshot, .shutdownDone, .connectCmdRefused, .closeTry] = some s ∧
+    s.status = .closed ∧ s.log = [] ∧ step s .triggerAcquire = none := ⟨_, rfl, by decide, by decide, by decide⟩
 
 /-! non-vacuity -/
 example : ∃ s, run {} [.connectCmdOk, .subscribe, .triggerAcquire, .triggerEnd, .subscribe, .tickAcquire, .tickAliveStart,
     .closeTry, .tickAliveEnd, .tickRelease, .wAcquirePresence, .wRemove, .wCb, .wRemove, .wCb, .wDisc, .wDiscEnd] = some s ∧
     s.log = [.connectStart, .connectEnd, .aliveStart, .aliveEnd, .unsub 0, .unsub 1, .discStart, .discEnd] :=
   ⟨_, rfl, by decide⟩
-example : ∃ s1 s, run {} [.connectCmdOk, .triggerAcquire, .triggerEnd, .shutdownSnapshot] = some s1 ∧
-    s1.shut = .snapshotTaken true ∧ run s1 [.closeTry, .shutdownDone] = some s ∧ s.shut = .done :=
-  ⟨_, _, rfl, by decide, rfl, by decide⟩
+example : ∃ s, run {} [.connectCmdOk, .triggerAcquire, .triggerEnd, .shutdownSnapshot, .closeTry, .shutdownDone] = some s ∧
+    s.shut = .done ∧ s.status = .closed := ⟨_, rfl, by decide, by decide⟩
 
 end CentrifugeVerif.Lifecycle
